@@ -139,10 +139,10 @@ def callSeq (fixed : Bool) : List Nat → List (List Outcome) → List CallResul
 
 /-! ### argument marshalling -/
 
-/-- `Signature.ToBigInt`: `x.SetBytes(sig[0:32]); y.SetBytes(sig[32:])`.
-`none` = slice bounds panic (fewer than 32 bytes). -/
-def toBigInt (sig : Bytes) : Option (Nat × Nat) :=
-  if sig.length < 32 then none else some (beNat (sig.take 32), beNat (sig.drop 32))
+/-- `Signature.ToBigInt`: `if len(sig) < 32 { return 0, 0 }; x.SetBytes(sig[0:32]); y.SetBytes(sig[32:])`
+(the guard is the repair of /repo commit 6bcc55e; before it a short signature was a slice-bounds panic). -/
+def toBigInt (sig : Bytes) : Nat × Nat :=
+  if sig.length < 32 then (0, 0) else (beNat (sig.take 32), beNat (sig.drop 32))
 
 /-- `decodePubKey` on the marshalled G2 point `0x01 ‖ x.i ‖ x.r ‖ y.i ‖ y.r` (129 bytes):
 `pubKeyMar[32*i+1 : 32*i+33]` for `i = 0..3`. `none` = slice bounds panic (the 1-byte
